@@ -38,6 +38,14 @@ _ODD_EIDS = ["e 1", "New Edge", "1.5", "e,2", "e;3", "e|4", "k'", "0x1f", "--", 
 # identifier-like, and none of them is a parameter name of add_node / add_edge / add_simplex
 ATTR_NAMES = ("color", "w", "tag", "weight", "label", "size_")
 NET_ATTR_NAMES = ("name", "source", "year", "meta")
+# attribute names that are only ever applied through the attribute-dict API (set_*_attributes with a dict of dicts, net.nodes[n][k] = v,
+# net[k] = v), never as keyword arguments: parameter names of the functions involved, non-identifiers, HIF / JSON field names
+PARAM_NAMES = ("node", "members", "idx", "edge", "attr", "self", "data", "nodes", "edges", "name", "values")
+FIELD_NAMES = ("my key", "a-b", "", "weight", "attrs", "incidences", "network-type", "metadata", "node-data", "edge-dict", "hypergraph-data", "type", "direction", "1", "ü")
+# what the unchanged tree cannot carry (established by probing every name x place x class x representation): from_hif_dict creates isolated nodes
+# with add_node(n, **attrs) and empty edges with add_edge(members, idx, **attrs); from_hypergraph_dict creates *every* node with add_node(n, **attrs)
+NODE_KW = frozenset({"node", "self"})
+EDGE_KW = frozenset({"members", "idx", "self"})
 JSON_VALUES = (
     "red", "blue", "", "ü x", 1, 2, -3, 0, 10**12, 0.5, 1.0, -2.25, 1e-3, True, False, None,
     [1, 2], [], ["a", [1, None]], {"k": 1}, {"a": {"b": [1, None, 2.5]}}, {},
@@ -104,7 +112,71 @@ def rand_attrs(rng, json_only, p=0.45, maxn=2, names=ATTR_NAMES):
     return {rng.choice(names): rng.choice(vals) for _ in range(rng.randint(1, maxn))}
 
 
-def gen_net(rng, cls, json_only=False, empties=True, min_edges=0, max_edges=7, nkind=None, ekind=None, attrs=True, isolates=True, label_ok=None):
+def hif_unsupported(net):
+    """Does `net` hold an attribute the HIF reader of the unchanged tree cannot take (see NODE_KW / EDGE_KW)?"""
+    for n in net.nodes:
+        if NODE_KW & set(net.nodes[n]) and len(net.nodes.memberships(n)) == 0:
+            return True
+    for e in net.edges:
+        if EDGE_KW & set(net.edges[e]) and len(net.edges.members(e)) == 0:
+            return True
+    return False
+
+
+def stddict_unsupported(net):
+    """... the standard-dict reader cannot take: any node attribute named like a parameter of add_node."""
+    return any(NODE_KW & set(net.nodes[n]) for n in net.nodes)
+
+
+def _wild_attrs(rng, net, hist, feats, avoid_node_names):
+    """1-3 attributes with unusual names, through the attribute-dict API; the (name, place) combinations HIF cannot carry are not generated."""
+    vals = [v for v in JSON_VALUES if not isinstance(v, (list, dict))]
+    for _ in range(rng.randint(1, 3)):
+        name = rng.choice(PARAM_NAMES + PARAM_NAMES + FIELD_NAMES)
+        v = rng.choice(vals)
+        where = rng.choice(("node", "node", "edge", "edge", "net"))
+        if where == "node" and len(net.nodes):
+            if name in avoid_node_names:
+                continue
+            cands = list(net.nodes)
+            if name in NODE_KW:
+                cands = [n for n in cands if len(net.nodes.memberships(n))]
+            if not cands:
+                continue
+            n = rng.choice(cands)
+            if rng.random() < 0.5:
+                net.set_node_attributes({n: {name: v}})
+                hist.append(f"set_node_attributes({{{n!r}: {{{name!r}: {v!r}}}}})")
+            else:
+                net.nodes[n][name] = v
+                hist.append(f"net.nodes[{n!r}][{name!r}] = {v!r}")
+            feats.add("wild-attr-names")
+            if name in NODE_KW:
+                feats.add("node-attr-named-like-add_node-parameter")
+        elif where == "edge" and len(net.edges):
+            cands = list(net.edges)
+            if name in EDGE_KW:
+                cands = [e for e in cands if len(net.edges.members(e))]
+            if not cands:
+                continue
+            e = rng.choice(cands)
+            if rng.random() < 0.5:
+                net.set_edge_attributes({e: {name: v}})
+                hist.append(f"set_edge_attributes({{{e!r}: {{{name!r}: {v!r}}}}})")
+            else:
+                net.edges[e][name] = v
+                hist.append(f"net.edges[{e!r}][{name!r}] = {v!r}")
+            feats.add("wild-attr-names")
+            if name in EDGE_KW:
+                feats.add("edge-attr-named-like-add_edge-parameter")
+        elif where == "net":
+            net[name] = v
+            hist.append(f"net[{name!r}] = {v!r}")
+            feats.add("wild-attr-names")
+
+
+def gen_net(rng, cls, json_only=False, empties=True, min_edges=0, max_edges=7, nkind=None, ekind=None, attrs=True, isolates=True, label_ok=None,
+            avoid_node_names=frozenset()):
     """-> (network, info).  info: nkind, ekind, feature tags, and the construction history (strings).
     label_ok: predicate for the labels of the "odd" families (what the representation at hand can carry)."""
     nkind = nkind or rng.choice(NODE_KINDS)
@@ -182,6 +254,8 @@ def gen_net(rng, cls, json_only=False, empties=True, min_edges=0, max_edges=7, n
         net.set_node_attributes({n: a})
         hist.append(f"set_node_attributes({{{n!r}: {a!r}}})")
         feats.add("node-attrs")
+    if attrs and rng.random() < 0.35:
+        _wild_attrs(rng, net, hist, feats, avoid_node_names)
     if any(len(net.nodes.memberships(n)) == 0 for n in net.nodes):
         feats.add("isolated-node")
     return net, {"nkind": nkind, "ekind": ekind, "feats": feats, "hist": hist, "cls": cls}
@@ -194,17 +268,21 @@ def rebuild(net):
     new = type(net)()
     for k, v in net._net_attr.items():
         new[k] = deepcopy(v)
-    for n in net.nodes:
-        new.add_node(n, **deepcopy(dict(net.nodes[n])))
+    for n in net.nodes:  # attributes never as keyword arguments: their names may be parameter names
+        new.add_node(n)
+        new.set_node_attributes({n: deepcopy(dict(net.nodes[n]))})
     if isinstance(net, xgi.DiHypergraph):
         for e in net.edges:
             t, h = net.edges.dimembers(e)
-            new.add_edge((sorted(t, key=repr), sorted(h, key=repr)), idx=e, **deepcopy(dict(net.edges[e])))
+            new.add_edge((sorted(t, key=repr), sorted(h, key=repr)), idx=e)
     elif isinstance(net, xgi.SimplicialComplex):
-        new.add_simplices_from([(sorted(net.edges.members(e), key=repr), e, deepcopy(dict(net.edges[e]))) for e in net.edges])
+        new.add_simplices_from([(sorted(net.edges.members(e), key=repr), e, {}) for e in net.edges])
     else:
         for e in net.edges:
-            new.add_edge(sorted(net.edges.members(e), key=repr), idx=e, **deepcopy(dict(net.edges[e])))
+            new.add_edge(sorted(net.edges.members(e), key=repr), idx=e)
+    for e in net.edges:
+        if e in new.edges:
+            new.set_edge_attributes({e: deepcopy(dict(net.edges[e]))})
     return new if valid(new) and obs(new).brief() == obs(net).brief() else None
 
 
